@@ -1,4 +1,5 @@
 import PilotaModel.Thrift.Unsafe
+import PilotaModel.Thrift.Async
 import Driver.Thrift
 /-
   Line-protocol verbs of track thrift3: unchecked codec (C11), async decoding (C12),
@@ -94,11 +95,77 @@ def ur (items : List Sexp) : Option String := do
   let steps ← (items.drop 2).mapM ustepOf
   pure (urRun steps { bs := input } [])
 
+/-! ### C12 -/
+open Pilota.Thrift.Async in
+def eventsOf : Sexp → Option Stream
+  | .list xs => xs.foldrM (fun x acc => match x with
+      | .atom "p" => some (Event.pending :: acc)
+      | .atom h => match ofHex h with
+        | some (b :: bs) => some (Event.data b bs :: acc)
+        | some [] => some acc
+        | none => none
+      | _ => none) []
+  | _ => none
+
+inductive AStep where
+  | read (t : TType) | skip (t : TType) (d : Nat) | msg | sb | se | fb | fe
+
+def astepOf : Sexp → Option AStep
+  | .list [.atom "read", t] => do let t ← t.asAtom >>= TType.ofName; pure (.read t)
+  | .list [.atom "skip", t] => do let t ← t.asAtom >>= TType.ofName; pure (.skip t 64)
+  | .list [.atom "skipd", t, d] => do let t ← t.asAtom >>= TType.ofName; let d ← d.asNat; pure (.skip t d)
+  | .list [.atom "msg"] => some .msg
+  | .list [.atom "sb"] => some .sb
+  | .list [.atom "se"] => some .se
+  | .list [.atom "fb"] => some .fb
+  | .list [.atom "fe"] => some .fe
+  | _ => none
+
+open Pilota.Thrift.Async in
+/-- the program one step runs on the async protocol object (compact: over its state). -/
+def astepProg (p : AProto) (n : Nat) (cr : Compact.CR) : AStep → Prog (String × Compact.CR)
+  | .read t => match p with
+    | .bin e => (ABin.readVal e n t).bind fun v => .ret (v.toSexp, cr)
+    | .cmp => (ACmp.readVal n t cr).bind fun (v, cr) => .ret (v.toSexp, cr)
+  | .skip t d => match p with
+    | .bin e => (ABin.skip e n d t).bind fun _ => .ret ("skipped", cr)
+    | .cmp => (ACmp.skip n d t cr).bind fun cr => .ret ("skipped", cr)
+  | .msg => match p with
+    | .bin e => (ABin.readMessageBegin e).bind fun (nm, mt, sq) => .ret (s!"(msg {hexOrDash nm} {mt} {sq})", cr)
+    | .cmp => ACmp.readMessageBegin.bind fun (nm, mt, sq) => .ret (s!"(msg {hexOrDash nm} {mt} {sq})", cr)
+  | .sb => match p with
+    | .bin _ => .ret ("sb", cr)
+    | .cmp => .ret ("sb", Compact.readStructBegin cr)
+  | .se => match p with
+    | .bin _ => .ret ("se", cr)
+    | .cmp => (ACmp.readStructEnd cr).bind fun cr => .ret ("se", cr)
+  | .fb => match p with
+    | .bin e => (ABin.readFieldBegin e).bind fun (t, id) => .ret (s!"(field {t.name} {id})", cr)
+    | .cmp => (ACmp.readFieldBegin cr).bind fun ((t, id), cr) => .ret (s!"(field {t.name} {id})", cr)
+  | .fe => .ret ("fe", cr)
+
+open Pilota.Thrift.Async in
+def arun (p : AProto) (total : Nat) : List AStep → Stream → Compact.CR → List String → String
+  | [], s, _, acc => s!"ok {if acc.isEmpty then "-" else " ".intercalate acc.reverse} pulled={total - (flat s).length}"
+  | st :: rest, s, cr, acc =>
+    match runS (astepProg p (budget s) cr st) s with
+    | .ok ((item, cr'), s') => arun p total rest s' cr' (item :: acc)
+    | o => s!"{o.cls} after={acc.length}"
+
+open Pilota.Thrift.Async in
+def av (items : List Sexp) : Option String := do
+  let p ← match items[1]? >>= Sexp.asAtom with
+    | some "bin" => some (AProto.bin .be) | some "le" => some (AProto.bin .le) | some "cmp" => some AProto.cmp | _ => none
+  let s ← items[2]? >>= eventsOf
+  let steps ← (items.drop 3).mapM astepOf
+  pure (arun p (flat s).length steps s {} [])
+
 def answer (items : List Sexp) : Option String := do
   let verb ← items.head? >>= Sexp.asAtom
   match verb with
   | "uw" => uw items
   | "ur" => ur items
+  | "a" => av items
   | _ => none
 
 end Driver.Thrift3
